@@ -20,10 +20,10 @@ FALLBACK_DEFS = ['-DPACKAGE_NAME="radsecproxy"', '-DPACKAGE_TARNAME="radsecproxy
 
 # repo files compiled as they are
 PLAIN = ["dns", "dtls", "fticks", "fticks_hashmac", "gconfig", "hash", "list",
-         "radmsg", "rewrite", "tcp", "tls", "tlv11", "udp", "util"]
+         "radmsg", "tcp", "tls", "tlv11", "udp", "util"]
 # repo files compiled through a harness TU that #includes them textually
-WRAPPED = {"radsecproxy": "h_rsp", "tlscommon": "h_tls", "debug": "h_debug", "hostport": "h_hostport"}
-EXTRA = ["h_main", "h_misc"]
+WRAPPED = {"radsecproxy": "h_rsp", "tlscommon": "h_tls", "debug": "h_debug", "hostport": "h_hostport", "rewrite": "h_rewrite"}
+EXTRA = ["h_main", "h_misc", "h_world"]
 
 
 def cflags(san=True):
